@@ -131,7 +131,6 @@ type storeRun struct {
 	saved        []savedRound
 	pruned       int64 // roots at versions below this are no longer retained
 	roundOps     []string
-	mergeOverlap bool // matcher of known finding C03-merge-order fired in this case
 	light        bool // op `light`: no per-operation frame/view re-reads after ins/del (large histories)
 	sub          bool // replaying a round on a cloned store: no output checks, no nested enumeration
 	fails        []string
@@ -517,8 +516,8 @@ func pstoreLine(dir string) string {
 	return "ok keys=" + strings.Join(hk, ",") + " vd=" + hx(sha3sum(cat)) + " dead=" + strings.Join(ds, ";")
 }
 
-// adversarialOrder reports whether some key is both the New of one change and the Old of another (matcher of the
-// known finding C03-merge-order) and, if so, sorts the changes so that the creation of such a key comes before
+// adversarialOrder reports whether some key is both the New of one change and the Old of another (the state
+// behind the fixed defect corpus/C03/fixed_merge_order.ops) and, if so, sorts the changes so that the creation of such a key comes before
 // its replacement: rank 0 = changes whose New is another change's Old, then the rest; by New hash within a rank.
 func adversarialOrder(changes []*util.NodeChange) bool {
 	olds := map[string]bool{}
@@ -592,7 +591,7 @@ func doSave(t *trieH, db *util.PNodeDB, version int64) error {
 // checkDiscipline checks, on the recorded collector call log of the block trie, the hypotheses of theorem
 // C04_complete_partial / dead_not_live: with L0 = keys reachable from the start root,
 //
-//	AddChange(old,new): old ∈ L;  L := L \ {old} ∪ {new}
+//	AddChange(old,new): old ∈ L, key(old) ≠ key(new);  L := L \ {old} ∪ {new}
 //	DeleteChange(old):  no condition (mergeChanges replays the child's Deletes, which repeat the Old of its changes
 //	                    and may name nodes that only ever lived in the child);  L := L \ {old}
 //
@@ -605,6 +604,10 @@ func (s *storeRun) checkDiscipline(t *trieH) {
 	for i, e := range t.log {
 		if e.old != "" && !L[e.old] && !e.del {
 			s.fail("C04", "event discipline: event %d of the block trie removes node %s which is not live", i, e.old)
+			return
+		}
+		if !e.del && e.old == e.new {
+			s.fail("C04", "event discipline: event %d of the block trie replaces node %s by itself", i, e.old)
 			return
 		}
 		if e.old != "" {
@@ -819,9 +822,10 @@ func (s *storeRun) exec(op string) string {
 		out := guard(func() string {
 			var err error
 			if overlap {
-				// known finding C03-merge-order: MergeMPTChanges replays the child's changes in Go map order and
-				// the outcome depends on that order when a key is the New of one change and the Old of another.
-				// The exported MergeChanges takes the changes as a slice: replay them in the (possible) bad order.
+				// fixed defect (corpus/C03/fixed_merge_order.ops): MergeMPTChanges hands mergeChanges the child's
+				// changes in Go map order; before the fix the outcome depended on that order when a key is the New
+				// of one change and the Old of another. The exported MergeChanges takes the changes as a slice:
+				// feed them in the bad order (creation before replacement), mergeChanges must cope.
 				err = p.mpt.MergeChanges(newRoot, changes, deletes, startRoot)
 			} else {
 				err = p.mpt.MergeMPTChanges(c.mpt)
@@ -833,7 +837,6 @@ func (s *storeRun) exec(op string) string {
 		})
 		if overlap {
 			s.tags["merge-new-old-overlap"] = true
-			s.mergeOverlap = true
 		}
 		parentMoved := p.muts != c.parentMuts
 		switch {
@@ -1112,9 +1115,6 @@ func runStoreCase(prop string, ops []string) CaseResult {
 	}
 	grocksdb.FakeReset(s.dir)
 	res.Fails = s.fails
-	if s.mergeOverlap && len(s.fails) > 0 {
-		res.Finding = "C03-merge-order"
-	}
 	for t := range s.tags {
 		res.Tags = append(res.Tags, t)
 	}
